@@ -50,14 +50,17 @@ def main():
     n = len(rows)
     nfirst = sum(1 for r in rows if r[4] == "yes")
     nnow = sum(1 for r in rows if r[5] not in ("-", "none") or r[4] == "yes")
+    nown = sum(1 for r in rows if r[0].split("-")[0] in [x.strip() for x in r[5].split(",")] or (r[5] in ("-", "none") and r[4] == "yes"))
     out.append("")
-    out.append("%d confirmed changes; %d caught by the property's own quick tier as first evaluated; %d caught after strengthening." % (n, nfirst, nnow))
+    out.append("%d confirmed changes; %d caught by the property's own quick tier as first evaluated (seed 1); after strengthening %d are caught by the "
+               "property's own check and %d by some registered check (the difference: changes whose own property delegates that code to a neighbouring check)." % (n, nfirst, nown, nnow))
     txt = "\n".join(out) + "\n"
     open(os.path.join(ROOT, "seeded", "RESULTS.md"), "w").write(
         "# Seeded changes\n\nEach directory holds `patch.diff`, the agent's `demo.py` (exit 0 on the unchanged tree, non-zero with the change), its `notes.md`\n"
         "and `meta.json` (what was run to confirm it and which checks catch it).  Produced by fresh sub-agents that saw only the property text and a scratch\n"
         "worktree; confirmed with tools/seedeval.py (scratch copy of /repo, demo before/after, related existing tests with the change applied), re-run with\n"
-        "tools/seedrun.py after checks were strengthened.  One proposed change (C12-B, Xcov Amat without hbar) was rejected: two existing tests fail with it.\n\n" + txt)
+        "tools/seedrun.py after checks were strengthened.  Ids ending in -A/-B are the first wave, -C/-D the second (those agents were told which ideas had been used).\n"
+        "One proposed change (C12-B, Xcov Amat without hbar) was rejected: two existing tests fail with it.\n\n" + txt)
     sys.stdout.write(txt)
 
 
